@@ -75,15 +75,23 @@ ZApply(a, i, o, acc) ==
                                      changed |-> acc.changed + (IF ex /\ ~ScEq(old, new) THEN 1 ELSE 0),
                                      last |-> new, vetoed |-> FALSE, nan |-> FALSE])
 
+\* Wrong-type key AND invalid argument: the command reference does not fix the error precedence,
+\* so either error is allowed (real Redis parses options and scores before it looks the key up).
+ErrAltWrong(s, k, b) ==
+  IF WrongFor(s, k, "zset") THEN Two(One(RErr, s, b), One(RWrong, s, b \o ".wrongtype_alt")) ELSE One(RErr, s, b)
+
 CmdZAdd(s, now, a) ==
   IF Len(a) < 4 THEN One(RErr, s, "zadd.arity")
   ELSE LET o == ZOpts(a, 3, [nx |-> FALSE, xx |-> FALSE, gt |-> FALSE, lt |-> FALSE, ch |-> FALSE, incr |-> FALSE, first |-> 3])
            np == Len(a) - o.first + 1
            k == a[2]
-  IN IF np < 2 \/ np % 2 # 0 THEN One(RErr, s, "zadd.syntax.pairs")
-     ELSE IF (o.nx /\ o.xx) \/ (o.gt /\ o.lt) \/ (o.nx /\ (o.gt \/ o.lt)) THEN One(RErr, s, "zadd.syntax.options")
-     ELSE IF o.incr /\ np # 2 THEN One(RErr, s, "zadd.syntax.incr_pairs")
-     ELSE IF WrongFor(s, k, "zset") THEN One(RWrong, s, "zadd.wrongtype")
+  IN IF np < 2 \/ np % 2 # 0 THEN ErrAltWrong(s, k, "zadd.syntax.pairs")
+     ELSE IF (o.nx /\ o.xx) \/ (o.gt /\ o.lt) \/ (o.nx /\ (o.gt \/ o.lt)) THEN ErrAltWrong(s, k, "zadd.syntax.options")
+     ELSE IF o.incr /\ np # 2 THEN ErrAltWrong(s, k, "zadd.syntax.incr_pairs")
+     ELSE IF WrongFor(s, k, "zset") THEN
+          (IF \E j \in 0..((np \div 2) - 1) : ~ParseScore(a[o.first + 2 * j]).ok
+           THEN Two(One(RWrong, s, "zadd.wrongtype"), One(RErr, s, "zadd.wrongtype.badscore_alt"))
+           ELSE One(RWrong, s, "zadd.wrongtype"))
      ELSE IF \E j \in 0..((np \div 2) - 1) : ~ParseScore(a[o.first + 2 * j]).ok THEN One(RErr, s, "zadd.badscore")
      ELSE LET r == ZApply(a, o.first, o, [f |-> ZOf(s, k), added |-> 0, changed |-> 0, last |-> ScInf(0), vetoed |-> FALSE, nan |-> FALSE])
               corner == \E j \in 0..((np \div 2) - 1) : ParseScore(a[o.first + 2 * j]).corner
@@ -141,7 +149,7 @@ CmdZRange(s, now, a) ==
   ELSE LET o == ZROpts(a, 5, [rev |-> FALSE, ws |-> FALSE, other |-> FALSE]) IN
     IF o.other THEN One(RAny, s, "zrange.unmodelled_option")
     ELSE LET p1 == ParseSmall(a[3]) p2 == ParseSmall(a[4]) IN
-      IF ~p1.ok \/ ~p2.ok THEN One(RErr, s, "zrange.notint")
+      IF ~p1.ok \/ ~p2.ok THEN ErrAltWrong(s, a[2], "zrange.notint")
       ELSE IF WrongFor(s, a[2], "zset") THEN One(RWrong, s, "zrange.wrongtype")
       ELSE LET f == ZOf(s, a[2])
                n == Cardinality(DOMAIN f)
